@@ -84,13 +84,65 @@ func allocBytes() uint64 {
 	return allocSample[0].Value.Uint64()
 }
 
+// watchdog (worker side): an operation that is far beyond its budgets (twice the allocation budget + 128 MiB, four
+// times the time budget) is not run to its end (an out-of-memory death at the address-space limit, or the parent's
+// batch deadline): the worker says so on stderr and exits; the parent classifies the job and restarts the worker.
+var wd struct {
+	sync.Mutex
+	op     uint64 // 0 = no operation running
+	serial uint64
+	t0     time.Time
+	a0     uint64
+	n      int
+}
+
+func wdSnapshot() (op uint64, t0 time.Time, a0 uint64, n int) {
+	wd.Lock()
+	defer wd.Unlock()
+	return wd.op, wd.t0, wd.a0, wd.n
+}
+
+func startWatchdog() {
+	go func() {
+		sample := []metrics.Sample{{Name: "/gc/heap/allocs:bytes"}}
+		for {
+			time.Sleep(20 * time.Millisecond)
+			op, t0, a0, n := wdSnapshot()
+			if op == 0 {
+				continue
+			}
+			metrics.Read(sample)
+			da := sample[0].Value.Uint64() - a0
+			el := time.Since(t0)
+			if op2, _, _, _ := wdSnapshot(); op2 != op {
+				continue
+			}
+			if da > 2*allocBudget(n)+(128<<20) {
+				fmt.Fprintf(os.Stderr, "watchdog: out of memory budget: %d bytes allocated by one operation on %d input bytes\n", da, n)
+				os.Exit(3)
+			}
+			if el > 4*timeBudget(n) {
+				fmt.Fprintf(os.Stderr, "watchdog: hang: one operation on %d input bytes has been running for %v\n", n, el)
+				os.Exit(3)
+			}
+		}
+	}()
+}
+
 // measured runs f, returns class suffix "" | "overalloc" | "slow" plus the panic string
 func measured(n int, f func()) (p string, over string, dt time.Duration, da uint64) {
 	a0 := allocBytes()
 	t0 := time.Now()
+	wd.Lock()
+	wd.serial++
+	wd.op, wd.t0, wd.a0, wd.n = wd.serial, t0, a0, n
+	wd.Unlock()
 	p = guard(f)
 	dt = time.Since(t0)
 	da = allocBytes() - a0
+	wd.Lock()
+	wd.op = 0
+	wd.Unlock()
 	if da > allocBudget(n) {
 		over = "overalloc"
 	} else if dt > timeBudget(n) {
@@ -311,6 +363,7 @@ func runJob(j job) string {
 
 // cmdWorker: lines "<kind> <cfg> <hex>" -> "<result>"; "STAT" -> worst time/alloc seen
 func cmdWorker() {
+	startWatchdog()
 	in := bufio.NewReaderSize(os.Stdin, 1<<20)
 	w := bufio.NewWriter(os.Stdout)
 	for {
@@ -413,6 +466,9 @@ func runJobs(jobs []job, nproc int) []string {
 	// time / allocation classes are re-measured once, alone, so that scheduling noise of the parallel run
 	// is not reported as a finding; a reproducible hang or over-allocation keeps its class
 	// (a group that already has giveUpAfter confirmed failing inputs is not measured again: the others are skipped)
+	// and once every hang / overalloc signature (job kind, stage, class) of a result has giveUpAfter confirmed failing
+	// inputs, the result is reported as measured in the parallel run: it adds a count to a signature that is already
+	// established, not a signature
 	confirmed := map[string]int{}
 	for i, r := range res {
 		if strings.Contains(r, "hang") || strings.Contains(r, "overalloc") {
@@ -421,11 +477,22 @@ func runJobs(jobs []job, nproc int) []string {
 				res[i] = skipped
 				continue
 			}
+			sigs := resourceSigs(jobs[i].kind, r)
+			known := len(sigs) > 0
+			for _, sg := range sigs {
+				known = known && confirmed[sg] >= giveUpAfter
+			}
+			if known {
+				continue
+			}
 			one := make([]string, len(jobs))
 			runOne(jobs, one, i)
 			res[i] = one[i]
 			if isFailure(res[i]) {
 				confirmed[key]++
+			}
+			for _, sg := range resourceSigs(jobs[i].kind, res[i]) {
+				confirmed[sg]++
 			}
 			rstats.Lock()
 			rstats.remeasured++
@@ -436,6 +503,30 @@ func runJobs(jobs []job, nproc int) []string {
 }
 
 const batch = 64
+
+// resourceSigs: the hang / overalloc signatures "<kind>/<stage>=<class>" of a result line
+func resourceSigs(kind, res string) []string {
+	var o []string
+	for _, part := range strings.FieldsFunc(res, func(r rune) bool { return r == '|' || r == '\t' }) {
+		key := ""
+		if eq := strings.Index(part, "="); eq >= 0 {
+			key, part = part[:eq], part[eq+1:]
+		}
+		for _, tok := range strings.Split(part, ",") {
+			if tok == "hang" || tok == "overalloc" {
+				sg := kind + "/" + key + "=" + tok
+				dup := false
+				for _, x := range o {
+					dup = dup || x == sg
+				}
+				if !dup {
+					o = append(o, sg)
+				}
+			}
+		}
+	}
+	return o
+}
 
 // runOne: job i alone in a fresh worker, whatever its group's record
 func runOne(jobs []job, res []string, i int) {
@@ -497,6 +588,8 @@ func runChunk(jobs []job, res []string, lo, hi int) {
 			c := dead
 			if strings.Contains(stderr, "out of memory") || strings.Contains(stderr, "cannot allocate") {
 				c = "overalloc"
+			} else if strings.Contains(stderr, "watchdog: hang") {
+				c = "hang"
 			} else if strings.Contains(stderr, "stack overflow") || strings.Contains(stderr, "goroutine stack exceeds") {
 				c = "panic:stack overflow@" + topFrame(stderr)
 			} else if dead == "died" {
